@@ -160,14 +160,14 @@ func runC02(c *Ctx, r *Report) {
 				if !ok || se.Sel.Name != "Set" {
 					return true
 				}
-				if id, ok := ast.Unparen(se.X).(*ast.Ident); !ok || p.ObjOf(newLog, id) != nextObj {
+				if id, ok := ast.Unparen(se.X).(*ast.Ident); !ok || p.CanonObj(newLog, id) != nextObj {
 					return true
 				}
 				nset++
 				okc, why := loopComplete(p, newLog, call, 2, false, false)
 				if okc {
 					ls := enclosingLoops(p, newLog, call)
-					for cur := p.parent[ast.Node(ls[1])]; cur != nil && cur != ast.Node(newLog.Body); cur = p.parent[cur] {
+					for cur := p.ParentIn(newLog, ast.Node(ls[1])); cur != nil && cur != ast.Node(newLog.Body); cur = p.ParentIn(newLog, cur) {
 						switch cur.(type) {
 						case *ast.IfStmt, *ast.SwitchStmt, *ast.CaseClause:
 							okc, why = false, "the indexing loops only run under the condition at "+p.Pos(cur.Pos())
